@@ -65,6 +65,7 @@ type c14World struct {
 	// unexpected failures while setting a case up (never a panic: reported as a failed check)
 	setupFailures int
 	setupDetail   string
+	hung          int
 }
 
 func (wd *c14World) setupFailed(what string, err error) {
@@ -829,8 +830,30 @@ func (h *c14Hist) served(e *emit.Enc) any {
 	return out
 }
 
-// runHist executes a plan and emits one case. Returns false if the plan could not be run.
+// runHist executes a plan and emits one case. An operation of the real code that does not come
+// back (for instance a renewal retried forever) must not stall the check: the history is abandoned
+// after a deadline and reported as a failed oracle check.
 func (wd *c14World) runHist(plan c14Plan, desc map[string]any) {
+	if wd.hung >= 2 {
+		return // every further history would cost another deadline
+	}
+	done := make(chan struct{})
+	abandoned := new(bool)
+	go func() {
+		defer close(done)
+		wd.runHist1(plan, desc, abandoned)
+	}()
+	select {
+	case <-done:
+	case <-time.After(90 * time.Second):
+		*abandoned = true
+		pj, _ := json.Marshal(plan)
+		wd.setupFailed("history did not finish within 90 s (an operation of the real code hangs): "+string(pj), errors.New("abandoned"))
+		wd.hung++
+	}
+}
+
+func (wd *c14World) runHist1(plan c14Plan, desc map[string]any, abandoned *bool) {
 	defer func() {
 		if r := recover(); r != nil {
 			pj, _ := json.Marshal(plan)
@@ -917,6 +940,9 @@ func (wd *c14World) runHist(plan c14Plan, desc map[string]any) {
 		staple int
 	}
 	observe := func(se *emit.Enc, opName string, ownRef int, ret *retObs, callCerts []*c14Cert, mark, lmark int) {
+		if *abandoned {
+			panic("history abandoned")
+		}
 		encOpt(se, ownRef)
 		if ret == nil || !ret.ok {
 			se.Bool(false)
@@ -1297,7 +1323,18 @@ func (wd *c14World) runHist(plan c14Plan, desc map[string]any) {
 			return
 		}
 		// observation after the op
+		if op.Op == "handshake" || op.Op == "manage" {
+			if len(wd.resp.Since(mark)) > 0 {
+				wd.w.Hist("hist." + op.Op + ".responder-asked")
+			}
+			if len(h.issued)+len(h.failed) > 0 {
+				wd.w.Hist("hist." + op.Op + ".forced-renewal")
+			}
+		}
 		observe(se, opName, ownRef, ret, callCerts, mark, lmark)
+	}
+	if *abandoned {
+		return
 	}
 	parsed := t.encode(e)
 	e.Int(1).Len(nsteps)
@@ -1610,8 +1647,9 @@ func runC14(tier string, seed int64, outdir string, replay string) error {
 		wd.runHist(mkPlan("m:normal,u:normal",
 			c14HOp{Op: "cache", Cert: 0, Ans: one(staleG)},
 			c14HOp{Op: "cache", Cert: 1, Ans: one(staleG)},
-			c14HOp{Op: "handshake", Cert: 0, Ans: one(goodAns()), Renew: rn},
+			c14HOp{Op: "handshake", Cert: 0, Ans: one(c14Ans{Kind: "resp", Status: ocsp.Good, Serial: "right", This: "old", Next: "plus1h", Signer: "ca"}), Renew: rn},
 			c14HOp{Op: "handshake", Cert: 0, Ans: one(revokedAns(0)), Renew: rn},
+			c14HOp{Op: "handshake", Cert: 0, Ans: one(goodAns()), Renew: rn},
 			c14HOp{Op: "tamper", Cert: 0, Stored: "absent"},
 			c14HOp{Op: "cache", Cert: 0, Ans: one(staleG)},
 			c14HOp{Op: "handshake", Cert: 0, Ans: one(revokedAns(1)), Renew: rn},
@@ -1756,7 +1794,7 @@ func runC14(tier string, seed int64, outdir string, replay string) error {
 		wd.runCall(in)
 	}
 	// ---- random histories ----
-	for i := 0; i < nHist; i++ {
+	for i := 0; i < nHist && wd.hung < 2; i++ {
 		wd.runHist(wd.randPlan(r), nil)
 	}
 	finish()
